@@ -60,7 +60,10 @@ type SimVb struct {
 	Opens    []SimOpen
 	// Persist[copy] = queue of states; the head is reported, and popped when more than one is left
 	Persist [][]SimPersist
-	stream  *simStream
+	// FiniteEndErr: the cause the NEXT end of a bounded stream of this vBucket carries when it has reached its
+	// end seqno (nil = clean end)
+	FiniteEndErr error
+	stream       *simStream
 }
 
 type simDoc struct {
@@ -396,7 +399,9 @@ func (c *SimCluster) pump(vb *SimVb) {
 		}
 		if reached >= st.end {
 			st.open = false
-			st.ag.pushEvent(st.node, &simEvent{pkt: SimPacket{Kind: "end", Vb: vb.ID}, st: st})
+			ee := vb.FiniteEndErr // (once) the connection breaks right behind the last item: the end carries that cause
+			vb.FiniteEndErr = nil
+			st.ag.pushEvent(st.node, &simEvent{pkt: SimPacket{Kind: "end", Vb: vb.ID, EndErr: ee}, st: st})
 		}
 	}
 }
